@@ -638,7 +638,9 @@ def setup(argv):
     t0 = time.time()
     # 1. specs parse
     for m in ['Contract.tla', 'Trace.tla', 'Ring.tla']:
-        p = subprocess.run(['java', '-cp', core.TLA_CP, 'tla2sany.SANY', m], cwd=SPEC, stdout=subprocess.PIPE, stderr=subprocess.STDOUT)
+        tmpd = core.ensure(os.path.join(OUT, 'work', 'sany_tmp'))
+        p = subprocess.run(['java', '-Djava.io.tmpdir=' + tmpd, '-cp', core.TLA_CP, 'tla2sany.SANY', m], cwd=SPEC, stdout=subprocess.PIPE, stderr=subprocess.STDOUT)
+        shutil.rmtree(tmpd, ignore_errors=True)
         if p.returncode != 0 or b'*** Errors' in p.stdout or b'Fatal' in p.stdout:
             log(p.stdout.decode()[-3000:])
             log('SANY failed on ' + m)
